@@ -160,6 +160,7 @@ func checkC10(w *World, r *Report) {
 	checkExtendsSearchedEverywhere(w, r)
 	checkNestedConstructsRestoreState(w, r)
 	checkParsedNodesNotFiltered(w, r)
+	checkPrintWritesWholeValue(w, r)
 	checkResolvesThroughLoad(w, r, "R10.5", []string{"ExtendsNode"}, "a parent remembered from an earlier render is used although the parent name is an expression (or the engine would reload it): the child is laid out in the wrong parent")
 
 	// ---- R10.2
@@ -1224,4 +1225,75 @@ func valueDependsOn(v, on ssa.Value, depth int) bool {
 		return false
 	}
 	return walk(v, 0)
+}
+
+// checkPrintWritesWholeValue — R10.13: a print tag writes the text of its value, all of it.
+// In PrintNode.Render every string written to the output is, on every edge, the result of a
+// conversion of the evaluated value (ToString, strconv.Format…) — not a slice of it and not the
+// result of trimming or replacing.  `{{ parent() }}` is a print tag: cutting "the line break
+// Twig would have swallowed" off its text makes parent() yield something other than what the
+// next definition up the chain renders.
+func checkPrintWritesWholeValue(w *World, r *Report) {
+	n := 0
+	for _, fn := range w.pkgFuncs() {
+		if fn.Name() != "Render" || fn.Signature.Recv() == nil || !isNamed(fn.Signature.Recv().Type(), twigPath, "PrintNode") || fn.Synthetic != "" || len(fn.Params) < 2 {
+			continue
+		}
+		out := fn.Params[1]
+		instrsOf(fn, func(in ssa.Instruction) {
+			c, ok := in.(ssa.CallInstruction)
+			if !ok {
+				return
+			}
+			cc := c.Common()
+			var text ssa.Value
+			if cc.IsInvoke() {
+				if cc.Value == ssa.Value(out) && len(cc.Args) == 1 {
+					text = cc.Args[0]
+				}
+			} else if len(cc.Args) >= 2 && cc.Args[0] == ssa.Value(out) {
+				if b, ok := cc.Args[1].Type().Underlying().(*types.Basic); ok && b.Info()&types.IsString != 0 {
+					text = cc.Args[1]
+				}
+			}
+			if text == nil {
+				return
+			}
+			n++
+			bad := ""
+			seen := map[ssa.Value]bool{}
+			var walk func(v ssa.Value, d int)
+			walk = func(v ssa.Value, d int) {
+				v = unspill(v)
+				if seen[v] || d > 8 || bad != "" {
+					return
+				}
+				seen[v] = true
+				switch x := v.(type) {
+				case *ssa.Phi:
+					for _, e := range x.Edges {
+						walk(e, d+1)
+					}
+				case *ssa.Slice:
+					bad = "a slice of the text"
+				case *ssa.Convert:
+					walk(x.X, d+1)
+				case *ssa.BinOp:
+					bad = "a concatenation"
+				case *ssa.Call:
+					if g := x.Call.StaticCallee(); g != nil && g.Pkg != nil && g.Pkg.Pkg.Path() == "strings" {
+						bad = "the result of strings." + g.Name()
+					}
+				}
+			}
+			walk(text, 0)
+			construct := "the text written is the converted value"
+			if bad == "" {
+				r.ok("R10.13", ssaName(fn), construct, w.posOf(in.Pos()), "a conversion result on every edge", true)
+			} else {
+				r.bad("R10.13", ssaName(fn), construct, w.posOf(in.Pos()), "the print tag writes "+bad+" instead of the value's text: what `{{ parent() }}` (or any printed value) contributes differs from what the expression evaluates to")
+			}
+		})
+	}
+	r.floor("writes of PrintNode.Render", n, 1)
 }
